@@ -46,6 +46,9 @@ type Cfg struct {
 	Deser      []DeserEntry     `json:"deser,omitempty"`
 	// GoodbyeReply >= 0: the router answers the client's GOODBYE after that many ms.
 	GoodbyeReply int `json:"goodbye_reply"`
+	// StallAfterGoodbye: having received the client's GOODBYE the router stops reading (as a
+	// router does once the session is over). Only the F43 replay uses it.
+	StallAfterGoodbye bool `json:"stall_after_goodbye,omitempty"`
 }
 
 // Stim is one timed stimulus. Router messages are JSON lists [code, fields…] in
@@ -62,10 +65,10 @@ type Stim struct {
 }
 
 type Scenario struct {
-	ID    int    `json:"id"`
-	Cfg   Cfg    `json:"cfg"`
-	Stims []Stim `json:"stims"`
-	End   int    `json:"end"`
+	ID    int      `json:"id"`
+	Cfg   Cfg      `json:"cfg"`
+	Stims []Stim   `json:"stims"`
+	End   int      `json:"end"`
 	Tags  []string `json:"tags,omitempty"` // generator's note of the shapes it put in (histogram only)
 }
 
@@ -77,15 +80,15 @@ type Result struct {
 	ID       int    `json:"id"`
 	Started  bool   `json:"started,omitempty"`
 	Out      []Obs  `json:"out"`
-	Raw      []Obs  `json:"raw"` // the same observations in the order they were made
+	Raw      []Obs  `json:"raw"`      // the same observations in the order they were made
 	Concrete []Stim `json:"concrete"` // the stimuli with ids resolved and auto-replies added: the model's input
 	// Req maps API call g to the request id attributed to it.
 	Req map[int]uint64 `json:"req"`
 	// Unreturned lists API calls that had not returned when the scenario ended.
-	Unreturned []int `json:"unreturned,omitempty"`
-	CloseCalled   bool `json:"close_called"`
-	CloseReturned bool `json:"close_returned"`
-	DoneClosed    bool `json:"done_closed"`
+	Unreturned    []int  `json:"unreturned,omitempty"`
+	CloseCalled   bool   `json:"close_called"`
+	CloseReturned bool   `json:"close_returned"`
+	DoneClosed    bool   `json:"done_closed"`
 	Leftover      string `json:"leftover,omitempty"` // synctest's end-of-bubble report + where goroutines sit
 	Panic         string `json:"panic,omitempty"`    // panic recovered in a harness-owned goroutine
 	EventOverlap  bool   `json:"event_overlap,omitempty"`
